@@ -1,3 +1,13 @@
 #!/bin/bash
+# Build every engine flavour once (offline). Each check rebuilds incrementally from /repo's tree.
+set -u
+cd /verif/harness
+export CARGO_NET_OFFLINE=true
+[ -f Cargo.lock ] || cp /repo/Cargo.lock Cargo.lock
 set -e
-cd /verif/harness && CARGO_NET_OFFLINE=true cargo build --offline
+cargo build --offline
+cargo build --offline --release
+CARGO_TARGET_DIR=/verif/harness/target-miri MIRIFLAGS="-Zmiri-disable-isolation" cargo +nightly miri run --offline --features boxval -- noop || true
+RUSTFLAGS="-Zsanitizer=address -Cforce-frame-pointers=yes" CARGO_TARGET_DIR=/verif/harness/target-asan cargo +nightly build --offline --target x86_64-unknown-linux-gnu --features boxval
+RUSTFLAGS="-Zsanitizer=thread" CARGO_TARGET_DIR=/verif/harness/target-tsan cargo +nightly build --offline -Zbuild-std --target x86_64-unknown-linux-gnu
+echo setup done
